@@ -120,21 +120,43 @@ def site_cube_cellvecs(ctx, rid):
 
 
 def site_vasp_axes(ctx, rid):
+    """VASP grid step vectors: the whole grid reader on a model file with a skew cell (rows all different) and a
+    2 x 3 x 4 grid; the cube's axes must be cell vector i divided by the number of points along axis i -- however the
+    expression is written and wherever its value is kept before it reaches the cube."""
+    from ..accessors import AccessorEval, Raised, Rec
+
     prog = ctx.prog
     f = prog.func("iodata.formats.chgcar._load_vasp_grid")
-    cands = [(k.value, n) for n in f.own_nodes() if isinstance(n, ast.Call) for k in n.keywords if k.arg == "axes"]
-    cands += [(v, n) for n in f.own_nodes() if isinstance(n, ast.Dict) for k, v in zip(n.keys, n.values) if isinstance(k, ast.Constant) and k.value == "axes"]
-    if len(cands) != 1:
-        raise AnalysisError("chgcar._load_vasp_grid: cannot find the grid `axes` value")
-    e = cands[0][0]
-
-    def thunk():
-        cv, shape = sym_array("cellvecs", (3, 3)), sym_array("n", (3,))
-        got = _SplitEval({"cellvecs": cv, "shape": shape}, prog, f).eval(e)
-        want = np.array([[cv[i, j] / shape[i] for j in range(3)] for i in range(3)], dtype=object)
-        return got, want, "grid step vector i = cell vector i / number of grid points along axis i"
-
-    _run(ctx, rid, f, e, "VASP grid axes", thunk)
+    licls = prog.cls("iodata.utils.LineIterator")
+    cell = np.array([[2.0, 0.25, 0.5], [0.75, 3.0, 1.0], [1.25, 1.5, 4.0]])
+    shape = np.array([2, 3, 4])
+    lines = ["model\n", "   1.0\n"] + [" " + " ".join(f"{x:.6f}" for x in row) + "\n" for row in cell] + [" H\n", " 1\n", "Direct\n", " 0.0 0.0 0.0\n", "\n", " 2 3 4\n"]
+    lines += [" ".join(f"{0.5 + k:.5E}" for k in range(k0, min(k0 + 5, 24))) + "\n" for k0 in range(0, 24, 5)]
+    lit = Rec(licls, filename="F", fh=iter(lines), lineno=0, stack=[])
+    try:
+        ev = AccessorEval(prog, licls, limit=20000)
+        ev.module = f.module
+        ev._globals = {("iodata.utils", "angstrom"): 1.0}  # the unit factor is the header rule's business
+        res = ev.run_free(f, [lit], {})
+    except Raised as exc:
+        ctx.violate(rid, f"VASP grid axes: the grid reader raises {exc.args[0]} on a model file", f, f.node, construct="VASP grid axes: raises")
+        return
+    except NotSymbolic as exc:
+        raise AnalysisError(f"VASP grid axes: chgcar._load_vasp_grid is outside the evaluation whitelist: {exc}") from exc
+    cube = res.get("cube") if isinstance(res, dict) else None
+    got = cube.fields.get("axes") if isinstance(cube, Rec) else None
+    want = cell / shape.reshape(-1, 1)
+    try:
+        got = np.asarray(got, dtype=float)
+    except (TypeError, ValueError):
+        got = None
+    if got is None or got.shape != (3, 3):
+        ctx.violate(rid, f"VASP grid axes: the cube returned for a model file has axes {got!r}", f, f.node, construct="VASP grid axes: missing")
+    elif np.abs(got - want).max() > 1e-9:
+        i, j = (int(v) for v in np.argwhere(np.abs(got - want) > 1e-9)[0])
+        ctx.violate(rid, f"VASP grid axes: component {j} of step vector {i} is {got[i, j]:.6g}; cell vector {i} is {list(cell[i])} and the grid has {int(shape[i])} points along it: expected {want[i, j]:.6g} (step vector i = cell vector i / number of points along axis i)", f, f.node, construct=f"VASP grid axes: [{i},{j}]")
+    else:
+        ctx.ok(rid, "VASP grid axes: grid step vector i = cell vector i / number of grid points along axis i (whole reader on a skew model cell)", f"{f.module.relpath}:{f.lineno}")
 
 
 def site_vasp_direct(ctx, rid):
